@@ -297,6 +297,18 @@ theorem TreeInv.getD {H : Hier} {f : Forest} (k : Ty) (hf : TreeInv H f) :
   | none => simp [TreeInv, Forest.roots]
   | some s => simpa using hf.get? h
 
+theorem regFinish_inv {H : Hier} (new : Ty) (r : Forest × Bool) (h : TreeInv H r.1) :
+    TreeInv H (regFinish new r) ∧ ∀ x ∈ (regFinish new r).roots, x = new ∨ x ∈ r.1.roots := by
+  unfold regFinish
+  by_cases hb : r.2 = true
+  · simp only [hb, if_true]; exact ⟨h, fun x hx => Or.inr hx⟩
+  · simp only [hb]
+    by_cases hg : (r.1.get? new).isSome = true
+    · simp only [hg, if_true]; exact ⟨h, fun x hx => Or.inr hx⟩
+    · simp only [hg]
+      refine ⟨h.set trivial (by simp [Forest.roots]), fun x hx => ?_⟩
+      exact (Forest.mem_roots_set _ _ _ _).1 hx
+
 /-- the loop of `_register_fuzzy_type` keeps the invariant, and adds at most `new` as a root -/
 theorem regLoop_inv (H : Hier) (new : Ty) (snap : Forest) :
     ∀ (cur : Forest) (reg : Bool), TreeInv H snap → TreeInv H cur →
@@ -353,10 +365,8 @@ theorem regLoop_inv (H : Hier) (new : Ty) (snap : Forest) :
       · simp only [h2, if_true]
         obtain ⟨q1, q2⟩ := ihk kids false hs2 hs2
         -- the recursive call's result
-        have kinv : ∀ kids', kids' = (if (regLoop H new kids kids false).2 then (regLoop H new kids kids false).1
-              else (regLoop H new kids kids false).1.set new .nil) →
-            TreeInv H kids' ∧ ∀ x ∈ kids'.roots, H.sub x c = true := by
-          intro kids' hk
+        have kinv : TreeInv H (regFinish new (regLoop H new kids kids false)) ∧
+            ∀ x ∈ (regFinish new (regLoop H new kids kids false)).roots, H.sub x c = true := by
           have hroot : ∀ x, x = new ∨ x ∈ kids.roots → H.sub x c = true := by
             intro x hx
             rcases hx with hx | hx
@@ -368,15 +378,9 @@ theorem regLoop_inv (H : Hier) (new : Ty) (snap : Forest) :
             · exact Or.inl h
             · exact Or.inr h
             · exact Or.inr h
-          by_cases hb : (regLoop H new kids kids false).2 = true
-          · simp only [hb, if_true] at hk; subst hk
-            exact ⟨q1, fun x hx => hroot x (q2' x hx)⟩
-          · simp only [hb] at hk; subst hk
-            refine ⟨q1.set trivial (by simp [Forest.roots]), fun x hx => ?_⟩
-            rcases (Forest.mem_roots_set _ _ _ _).1 hx with hx | hx
-            · exact hroot x (Or.inl hx)
-            · exact hroot x (q2' x hx)
-        obtain ⟨k1, k2⟩ := kinv _ rfl
+          obtain ⟨f1, f2⟩ := regFinish_inv (H := H) new _ q1
+          exact ⟨f1, fun x hx => hroot x ((f2 x hx).elim Or.inl (q2' x))⟩
+        obtain ⟨k1, k2⟩ := kinv
         have hc2 : TreeInv H (cur.set c _) := hc.set k1 k2
         obtain ⟨r1, r2⟩ := ihr _ true hs3 hc2
         refine ⟨r1, fun x hx => ?_⟩
@@ -397,19 +401,206 @@ theorem regLoop_inv (H : Hier) (new : Ty) (snap : Forest) :
 theorem regFuzzy_inv {H : Hier} (new : Ty) {f : Forest} (hf : TreeInv H f) :
     TreeInv H (regFuzzy H new f) ∧ ∀ x ∈ (regFuzzy H new f).roots, x = new ∨ x ∈ f.roots := by
   obtain ⟨q1, q2⟩ := regLoop_inv H new f f false hf hf
-  have q2' : ∀ x ∈ (regLoop H new f f false).1.roots, x = new ∨ x ∈ f.roots := by
-    intro x hx
-    rcases q2 x hx with h | h | h
+  obtain ⟨f1, f2⟩ := regFinish_inv (H := H) new _ q1
+  refine ⟨f1, fun x hx => ?_⟩
+  rcases f2 x hx with h | h
+  · exact Or.inl h
+  · rcases q2 x h with h | h | h
     · exact Or.inl h
     · exact Or.inr h
     · exact Or.inr h
-  unfold regFuzzy
-  by_cases hb : (regLoop H new f f false).2 = true
-  · simp only [hb, if_true]; exact ⟨q1, q2'⟩
-  · simp only [hb]
-    refine ⟨q1.set trivial (by simp [Forest.roots]), fun x hx => ?_⟩
-    rcases (Forest.mem_roots_set _ _ _ _).1 hx with hx | hx
-    · exact Or.inl hx
-    · exact q2' x hx
+
+/-! ### D. what `_register_fuzzy_type` computes, level by level
+
+The loop runs over a snapshot while mutating the dict.  Under the invariants of a registry
+(sibling keys distinct and pairwise unrelated) it runs in one of three modes; in each mode the
+result is given explicitly. -/
+
+namespace Forest
+
+def app : Forest → Forest → Forest
+  | nil, g => g
+  | cons c k r, g => cons c k (app r g)
+
+/-- keep the items whose key satisfies `p` -/
+def filterR (p : Ty → Bool) : Forest → Forest
+  | nil => nil
+  | cons c k r => if p c then cons c k (filterR p r) else filterR p r
+
+def mapKids (f : Ty → Forest → Forest) : Forest → Forest
+  | nil => nil
+  | cons c k r => cons c (f c k) (mapKids f r)
+
+theorem app_nil (f : Forest) : app f nil = f := by
+  induction f with
+  | nil => rfl
+  | cons c k r _ ih => simp [app, ih]
+
+theorem app_assoc (a b c : Forest) : app (app a b) c = app a (app b c) := by
+  induction a with
+  | nil => rfl
+  | cons x k r _ ih => simp [app, ih]
+
+theorem roots_app (a b : Forest) : roots (app a b) = roots a ++ roots b := by
+  induction a with
+  | nil => rfl
+  | cons x k r _ ih => simp [app, roots, ih]
+
+theorem nodes_app (a b : Forest) : nodes (app a b) = nodes a ++ nodes b := by
+  induction a with
+  | nil => rfl
+  | cons x k r _ ih => simp [app, nodes, ih, List.append_assoc]
+
+theorem get?_app_left {a : Forest} (b : Forest) {k : Ty} (h : k ∈ roots a) :
+    (app a b).get? k = a.get? k := by
+  induction a with
+  | nil => simp [roots] at h
+  | cons x kx r _ ih =>
+    by_cases hx : x = k
+    · subst hx; simp [app, get?]
+    · simp [roots] at h
+      rcases h with h | h
+      · exact absurd h.symm hx
+      · simp [app, get?, hx, ih h]
+
+theorem get?_app_right {a : Forest} (b : Forest) {k : Ty} (h : k ∉ roots a) :
+    (app a b).get? k = b.get? k := by
+  induction a with
+  | nil => rfl
+  | cons x kx r _ ih =>
+    simp [roots] at h
+    have hx : ¬ x = k := fun e => h.1 e.symm
+    simp [app, get?, hx, ih h.2]
+
+theorem get?_none_of_not_mem {f : Forest} {k : Ty} (h : k ∉ roots f) : f.get? k = none := by
+  cases hg : f.get? k with
+  | none => rfl
+  | some v => exact absurd ((get?_isSome_iff f k).1 (by simp [hg])) h
+
+theorem erase_app_right {a : Forest} (b : Forest) {k : Ty} (h : k ∉ roots a) :
+    (app a b).erase k = app a (b.erase k) := by
+  induction a with
+  | nil => rfl
+  | cons x kx r _ ih =>
+    simp [roots] at h
+    have hx : ¬ x = k := fun e => h.1 e.symm
+    simp [app, erase, hx, ih h.2]
+
+theorem set_app_right {a : Forest} (b : Forest) {k : Ty} (v : Forest) (h : k ∉ roots a) :
+    (app a b).set k v = app a (b.set k v) := by
+  induction a with
+  | nil => rfl
+  | cons x kx r _ ih =>
+    simp [roots] at h
+    have hx : ¬ x = k := fun e => h.1 e.symm
+    simp [app, set, hx, ih h.2]
+
+theorem set_of_not_mem {f : Forest} {k : Ty} (v : Forest) (h : k ∉ roots f) :
+    f.set k v = app f (cons k v nil) := by
+  induction f with
+  | nil => rfl
+  | cons x kx r _ ih =>
+    simp [roots] at h
+    have hx : ¬ x = k := fun e => h.1 e.symm
+    simp [app, set, hx, ih h.2]
+
+theorem erase_of_not_mem {f : Forest} {k : Ty} (h : k ∉ roots f) : f.erase k = f := by
+  induction f with
+  | nil => rfl
+  | cons x kx r _ ih =>
+    simp [roots] at h
+    have hx : ¬ x = k := fun e => h.1 e.symm
+    simp [erase, hx, ih h.2]
+
+theorem roots_filterR (p : Ty → Bool) (f : Forest) : roots (filterR p f) = (roots f).filter p := by
+  induction f with
+  | nil => rfl
+  | cons c k r _ ih =>
+    by_cases h : p c = true
+    · simp [filterR, roots, h, ih]
+    · simp [filterR, roots, h, ih]
+
+theorem roots_mapKids (g : Ty → Forest → Forest) (f : Forest) : roots (mapKids g f) = roots f := by
+  induction f with
+  | nil => rfl
+  | cons c k r _ ih => simp [mapKids, roots, ih]
+
+end Forest
+
+/-- one iteration of the loop (the recursive call of the `elif` branch is `regFuzzy`) -/
+theorem regLoop_cons (H : Hier) (new c : Ty) (kids rest cur : Forest) (reg : Bool) :
+    regLoop H new (.cons c kids rest) cur reg =
+      if H.sub c new then
+        regLoop H new rest
+          (match (cur.erase c).get? new with
+            | some newKids => (cur.erase c).set new (newKids.set c ((cur.get? c).getD .nil))
+            | none => (cur.erase c).set new (.cons c ((cur.get? c).getD .nil) .nil)) true
+      else if H.sub new c then regLoop H new rest (cur.set c (regFuzzy H new kids)) true
+      else regLoop H new rest cur reg := by
+  rw [regLoop]; rfl
+
+/-- no item related to `new`: the loop does nothing -/
+theorem regLoop_skip (H : Hier) (new : Ty) (snap : Forest) :
+    ∀ cur reg, (∀ c ∈ snap.roots, H.sub c new = false ∧ H.sub new c = false) →
+      regLoop H new snap cur reg = (cur, reg) := by
+  induction snap with
+  | nil => intro cur reg _; rfl
+  | cons c kids rest _ ihr =>
+    intro cur reg h
+    have hc := h c (by simp [Forest.roots])
+    rw [regLoop_cons]; simp only [hc.1, hc.2]
+    exact ihr cur reg (fun x hx => h x (by simp [Forest.roots, hx]))
+
+/-- the same with an unrelated prefix in front of the snapshot -/
+theorem regLoop_skip_prefix (H : Hier) (new : Ty) (pre snap : Forest) :
+    ∀ cur reg, (∀ c ∈ pre.roots, H.sub c new = false ∧ H.sub new c = false) →
+      regLoop H new (pre.app snap) cur reg = regLoop H new snap cur reg := by
+  induction pre with
+  | nil => intro cur reg _; rfl
+  | cons c kids rest _ ihr =>
+    intro cur reg h
+    have hc := h c (by simp [Forest.roots])
+    simp only [Forest.app]
+    rw [regLoop_cons]; simp only [hc.1, hc.2]
+    exact ihr cur reg (fun x hx => h x (by simp [Forest.roots, hx]))
+
+/-- **mode P** — no item is a subtype of `new`: only the recursive `elif` branch fires, each
+    matching item has its subtree replaced by the recursive result, in place -/
+theorem regLoop_modeP (H : Hier) (new : Ty) (snap : Forest) :
+    ∀ (pre : Forest) (reg : Bool), (∀ c ∈ snap.roots, H.sub c new = false) → (pre.roots ++ snap.roots).Nodup →
+      regLoop H new snap (pre.app snap) reg =
+        (pre.app (snap.mapKids (fun c kids => if H.sub new c then regFuzzy H new kids else kids)),
+         reg || snap.roots.any (fun c => H.sub new c)) := by
+  induction snap with
+  | nil => intro pre reg _ _; simp [regLoop, Forest.mapKids, Forest.roots]
+  | cons c kids rest _ ihr =>
+    intro pre reg h hnd
+    have hc := h c (by simp [Forest.roots])
+    have hcpre : c ∉ pre.roots := by
+      intro hm
+      have := (List.nodup_append.1 hnd).2.2 c hm c (by simp [Forest.roots])
+      exact this rfl
+    have hnd' : ((pre.app (.cons c (if H.sub new c then regFuzzy H new kids else kids) .nil)).roots
+        ++ rest.roots).Nodup := by
+      simpa [Forest.roots_app, Forest.roots, List.append_assoc] using hnd
+    have hrest : ∀ x ∈ rest.roots, H.sub x new = false := fun x hx => h x (by simp [Forest.roots, hx])
+    rw [regLoop_cons]; simp only [hc]
+    by_cases h2 : H.sub new c = true
+    · simp only [h2, if_true]
+      rw [Forest.set_app_right _ _ hcpre]
+      simp only [Forest.set, beq_self_eq_true, if_true]
+      have := ihr (pre.app (.cons c (regFuzzy H new kids) .nil)) true hrest (by simpa [h2] using hnd')
+      rw [Forest.app_assoc] at this
+      simp only [Forest.app] at this
+      rw [this]
+      simp [Forest.mapKids, Forest.roots, h2, Forest.app_assoc, Forest.app]
+    · simp only [h2]
+      have h2' : H.sub new c = false := by simpa using h2
+      have := ihr (pre.app (.cons c kids .nil)) reg hrest (by simpa [h2'] using hnd')
+      rw [Forest.app_assoc] at this
+      simp only [Forest.app] at this
+      simp only [Bool.false_eq_true, if_false]
+      rw [this]
+      simp [Forest.mapKids, Forest.roots, h2', Forest.app_assoc, Forest.app]
 
 end Glom.C13
